@@ -1079,6 +1079,9 @@ func runC14(ctx *Ctx) {
 	if ctx.Want(n + 1002) {
 		c14CancelRace(ctx, n+1002, ctx.N(1500, 20000))
 	}
+	if ctx.Want(n + 1003) {
+		c14ServeEnds(ctx, n+1003)
+	}
 	for c := 0; c < ctx.N(4, 40); c++ {
 		if ctx.Want(n + 1010 + c) {
 			c14FailedEncode(ctx, n+1010+c, ctx.Sub(n+1010+c))
